@@ -375,6 +375,16 @@ class _FileInfo(object):
         self.module_use = {}
 
 
+def module_info(lib):
+    """the real per-module record of the Fortran emitter (a stand-in would miss attributes a changed tree adds)"""
+    from shroud import wrapf
+    try:
+        wrapf.ModuleInfo.newlibrary = lib
+        return wrapf.ModuleInfo(lib)
+    except Exception:
+        return _FileInfo()
+
+
 def fresh_library():
     from shroud import ast, typemap
     typemap.initialize()
@@ -439,7 +449,7 @@ class EnumHarness(object):
             del wc.enum_impl[:]
             wc.wrap_enum(cls if self.scope == "class" else None, node)
             wf = wrapf.Wrapf(lib, cfg, {})
-            fi = _FileInfo()
+            fi = module_info(lib)
             wf.wrap_enum(cls if self.scope == "class" else None, decoy, fi)
             del fi.enum_impl[:]
             wf.wrap_enum(cls if self.scope == "class" else None, node, fi)
@@ -605,7 +615,7 @@ def concrete_values(w):
     del wc.enum_impl[:]
     wc.wrap_enum(cls if w["scope"] == "class" else None, node)
     wf = wrapf.Wrapf(lib, cfg, {})
-    fi = _FileInfo()
+    fi = module_info(lib)
     wf.wrap_enum(cls if w["scope"] == "class" else None, decoy, fi)
     del fi.enum_impl[:]
     wf.wrap_enum(cls if w["scope"] == "class" else None, node, fi)
@@ -692,7 +702,7 @@ def legal_decl(w):
 
 
 # ---------------------------------------------------------------------------- pipeline level: every enumerator is exported
-PRES_SCOPES = ["lib", "ns", "nested", "class", "nsclass"]
+PRES_SCOPES = ["lib", "ns", "nested", "class", "nsclass", "twoclass"]
 PRES_KINDS = ["enum", "enum class", "enum struct"]
 PRES_MEMBERS = [("LOW", 3), ("MID", 4), ("HIGH", 6)]          # enum ... { LOW = 3, MID, HIGH = LOW * 2 }
 
@@ -708,6 +718,10 @@ def presence_library(scope, kind, with_function):
         decls = [{"decl": "namespace outer", "declarations": [{"decl": "namespace inner", "declarations": [en] + fn}]}]
     elif scope == "class":
         decls = [{"decl": "class Cls", "declarations": [{"decl": "Cls()"}, en]}] + fn
+    elif scope == "twoclass":
+        # two classes of one module each declare an enumeration of the same (unqualified) name
+        decls = [{"decl": "class Cls", "declarations": [{"decl": "Cls()"}, dict(en)]},
+                 {"decl": "class Other", "declarations": [{"decl": "Other()"}, dict(en)]}] + fn
     else:
         decls = [{"decl": "namespace outer", "declarations": [{"decl": "class Cls", "declarations": [{"decl": "Cls()"}, en]}] + fn}]
     return {"library": "pres", "cxx_header": "pres.hpp", "options": {"wrap_python": False, "wrap_lua": False}, "declarations": decls}
@@ -717,12 +731,15 @@ def presence_expected(scope, kind):
     """Names per the documented templates: C  {C_prefix}{C_name_scope}{enum_member_name}, Fortran
     {F_name_scope}{enum_member_lower}; C_name_scope joins every enclosing namespace / class (and the enumeration's own name
     when it is scoped) with '_'; F_name_scope does the same without namespaces (each namespace is a module of its own)."""
-    cscope = {"lib": "", "ns": "outer_", "nested": "outer_inner_", "class": "Cls_", "nsclass": "outer_Cls_"}[scope]
-    fscope = "cls_" if scope in ("class", "nsclass") else ""
-    if kind != "enum":
-        cscope += "Level_"
-        fscope += "level_"
-    return [("PRE_" + cscope + n, fscope + n.lower(), v) for (n, v) in PRES_MEMBERS]
+    out = []
+    for cscope, fscope in ([("Cls_", "cls_"), ("Other_", "other_")] if scope == "twoclass" else
+                           [({"lib": "", "ns": "outer_", "nested": "outer_inner_", "class": "Cls_", "nsclass": "outer_Cls_"}[scope],
+                             "cls_" if scope in ("class", "nsclass") else "")]):
+        if kind != "enum":
+            cscope += "Level_"
+            fscope += "level_"
+        out += [("PRE_" + cscope + n, fscope + n.lower(), v) for (n, v) in PRES_MEMBERS]
+    return out
 
 
 def presence_verdict(scope, kind, with_function):
